@@ -105,6 +105,12 @@ def _is_counter(f: Func, name: str, seen: frozenset = frozenset()) -> bool:
             return False
         if isinstance(n, ast.Name) and n.id == name and isinstance(n.ctx, ast.Store) and not isinstance(
                 f.module.parents.get(n), (ast.Assign, ast.AugAssign)):
+            par = f.module.parents.get(n)
+            gp = f.module.parents.get(par) if par is not None else None
+            # `pos, lines = <helper result / saved pair>`: the count travels with the position it belongs to
+            if isinstance(par, ast.Tuple) and isinstance(gp, ast.Assign) and par in gp.targets and isinstance(gp.value, (ast.Call, ast.Name, ast.Attribute)):
+                found = True
+                continue
             return False
     return found
 
@@ -152,12 +158,52 @@ class _Model:
             if g in self.members or g.cls == "StateBlock":
                 continue
             sc = c.tf.scope(g)
+            params = [a.arg for a in g.node.args.posonlyargs + g.node.args.args]
             for n in own_nodes(g.node):
                 if isinstance(n, (ast.Assign, ast.AugAssign)):
                     for t in (n.targets if isinstance(n, ast.Assign) else [n.target]):
                         if isinstance(t, ast.Attribute) and t.attr == "line" and isinstance(t.value, ast.Name) \
-                                and sc.env.get(t.value.id) == "StateBlock" and t.value.id in [a.arg for a in g.node.args.args]:
+                                and sc.env.get(t.value.id) == "StateBlock" and t.value.id in params:
                             self.derived[g] = t.value.id
+            # ... or that dispatch the rules / call the dispatcher themselves (outside validation mode)
+            if g not in self.derived:
+                for cs in c.cg.sites.get(g, []):
+                    if cs.callees and all(h in self.members for h in cs.callees) and len(cs.node.args) >= 3 and not _is_silent_dispatch(cs.node) \
+                            and isinstance(cs.node.args[0], ast.Name) and cs.node.args[0].id in params \
+                            and sc.env.get(cs.node.args[0].id) == "StateBlock":
+                        self.derived[g] = cs.node.args[0].id
+
+    def silent_pure(self, g: Func, depth: int = 0) -> bool:
+        """g writes nothing outside its own locals except through dispatches in validation mode (which are pure, rule SILENT):
+        a helper that wraps the terminator probe loop."""
+        cache = self.__dict__.setdefault("_sp", {})
+        if g in cache:
+            return cache[g]
+        cache[g] = False
+        ok = all(e.category in ("local", "scalar") for e in self.c.eff.by_func.get(g, []))
+        has_silent = False
+        if ok:
+            for cs in self.c.cg.sites.get(g, []):
+                if cs.kind in ("external",):
+                    continue
+                if cs.kind.startswith("dispatch:") or (cs.callees and all(h in self.members for h in cs.callees)):
+                    if _is_silent_dispatch(cs.node):
+                        has_silent = True
+                        continue
+                    ok = False
+                    break
+                if not cs.callees:
+                    if cs.kind in ("unknown", "param"):
+                        ok = False
+                        break
+                    continue
+                for h in cs.callees:
+                    if self.c.eff.writes.get(h) and not (depth < 2 and self.silent_pure(h, depth + 1)):
+                        ok = False
+                if not ok:
+                    break
+        cache[g] = ok and has_silent
+        return cache[g]
 
     def derived_call(self, call: ast.Call) -> tuple[Func, str] | None:
         cs = self.c.cg.site_of.get(call)
@@ -204,6 +250,14 @@ class _Model:
         def k(call: ast.Call):
             mc = self.member_call(call)
             if mc is None:
+                cs0 = self.c.cg.site_of.get(call)
+                if cs0 is not None and cs0.callees and cs0.kind in ("direct", "method") and all(self.silent_pure(h) for h in cs0.callees):
+                    return ()                           # a wrapper around validation-mode probes only
+                dc = self.derived_call(call)
+                if dc is not None and not any(isinstance(t, ast.Attribute) and t.attr == "lineMax" for n in own_nodes(dc[0].node)
+                                              if isinstance(n, (ast.Assign, ast.AugAssign))
+                                              for t in (n.targets if isinstance(n, ast.Assign) else [n.target])):
+                    return [p for p in base(call) if p != f"{dc[1]}.lineMax"]     # only members write lineMax below it, and restore it
                 return base(call)
             if _is_silent_dispatch(call):
                 return ()                               # validation mode is pure (rule SILENT)
@@ -245,7 +299,80 @@ class _Model:
         self._summ[g] = ok
         return ok
 
+    def _ret_bound(self, zz: Facts, e: ast.AST, p: str) -> int | None:
+        """smallest k with  e <= p + k  entailed by zz (None if none)"""
+        if isinstance(e, ast.Call) and isinstance(e.func, ast.Name) and e.func.id == "max" and e.args and not e.keywords:
+            ks = [self._ret_bound(zz, a, p) for a in e.args]
+            return None if any(k is None for k in ks) else max(ks)          # type: ignore[type-var]
+        if isinstance(e, ast.Call) and isinstance(e.func, ast.Name) and e.func.id == "min" and e.args and not e.keywords:
+            ks = [k for k in (self._ret_bound(zz, a, p) for a in e.args) if k is not None]
+            return min(ks) if ks else None
+        if isinstance(e, ast.IfExp):
+            a, b = self._ret_bound(zz, e.body, p), self._ret_bound(zz, e.orelse, p)
+            return None if a is None or b is None else max(a, b)
+        l = lin(e)
+        if l is None:
+            return None
+        if T(l[0]) == p:
+            return l[1]
+        zz.close()
+        k = zz.d.get((T(l[0]), p))
+        return None if k is None else k + l[1]
+
+    def helper_result_bounds(self, call: ast.Call, z: Facts):
+        """Upper bounds of the value a private helper returns, in the caller's terms: the helper is analysed under what this call
+        site establishes between its arguments, and `ret <= param + k` must hold at every return."""
+        cs = self.c.cg.site_of.get(call)
+        if cs is None or len(cs.callees) != 1 or cs.kind not in ("direct", "method"):
+            return ()
+        h = cs.callees[0]
+        if h in self.members or h in self.derived or h.cls == "StateBlock":
+            return ()
+        params = [a.arg for a in h.node.args.posonlyargs + h.node.args.args]
+        amap: dict[str, tuple[str, int]] = {}
+        for pn in params:
+            a = self.c.eff.arg_for_param(cs, h, pn)
+            la = lin(a) if a is not None else None
+            if la is not None and la[0] is not None:
+                amap[pn] = (la[0], la[1])
+        if len(amap) < 1:
+            return ()
+        z = z.copy()
+        z.close()
+        entry = Facts()
+        for p1, (t1, o1) in amap.items():
+            for p2, (t2, o2) in amap.items():
+                if p1 != p2:
+                    k = 0 if t1 == t2 else z.d.get((t1, t2))
+                    if k is not None:
+                        entry.add(p1, p2, k + o1 - o2)          # p1 = t1 + o1, p2 = t2 + o2
+        entry.close()
+        hkey = (h, frozenset(entry.d.items()))
+        hcache = self.__dict__.setdefault("_hrb", {})
+        if hkey not in hcache:
+            cfg = self.c.cfg(h)
+            res = solve(cfg, FactsProblem(cfg, entry, self.c.eff.call_kills(h), self.c.bool_summary))
+            rets = [n for n in cfg.nodes if n.kind == "stmt" and isinstance(n.ast, ast.Return) and res.get(n.id) is not None]
+            summ: dict[str, int] | None = {}
+            if not rets or any(n.ast.value is None for n in rets):
+                summ = None
+            elif any(p.kind != "stmt" or not isinstance(p.ast, (ast.Return, ast.Raise)) for (p, l_) in cfg.exit.pred if res.get(p.id) is not None and l_ != "exc"):
+                summ = None
+            else:
+                for pn in params:
+                    ks = [self._ret_bound(res[n.id].copy(), n.ast.value, pn) for n in rets]
+                    if all(k is not None for k in ks):
+                        summ[pn] = max(ks)          # type: ignore[type-var]
+            hcache[hkey] = summ
+        summ = hcache[hkey]
+        if not summ:
+            return ()
+        return [(amap[pn][0], K + amap[pn][1]) for pn, K in summ.items() if pn in amap]          # ret <= pn + K = t + o + K
+
     def result_bounds(self, call: ast.Call, z: Facts):
+        hb = list(self.helper_result_bounds(call, z))
+        if hb:
+            return hb
         cs = self.c.cg.site_of.get(call)
         if cs is None or not cs.callees or len(call.args) != 1 or not isinstance(call.func, ast.Attribute):
             return ()
@@ -481,7 +608,8 @@ def rule_linecap(c: Ctx) -> RuleResult:
         # ---- O4: a rule that reports no match has not moved the cursor (used on the failing edge of a dispatch)
         if f in m.rules:
             from ..valnum import analyse as vn_analyse, VN, entry as vn_entry
-            vcfg, vres, vn = vn_analyse(c, f, lambda cs, call, env, nid: m.member_call(call) is not None and _is_silent_dispatch(call))
+            vcfg, vres, vn = vn_analyse(c, f, lambda cs, call, env, nid: (m.member_call(call) is not None and _is_silent_dispatch(call)) or (
+                cs is not None and bool(cs.callees) and cs.kind in ("direct", "method") and all(m.silent_pure(h) for h in cs.callees)))
             for vnode in vcfg.nodes:
                 if vnode.kind == "stmt" and isinstance(vnode.ast, ast.Return) and vres.get(vnode.id) is not None:
                     v = vnode.ast.value
@@ -576,7 +704,7 @@ def rule_linecap(c: Ctx) -> RuleResult:
         check_function(g, m.derived[g], None, None, entry)
     # ---- the root call(s): every other caller of the dispatcher
     for cs in c.cg.callers.get(m.tok, []):
-        if cs.caller in m.members:
+        if cs.caller in m.members or cs.caller in m.derived:
             continue
         n_sites += 1
         call = cs.node
